@@ -2,6 +2,7 @@
 """Prints the markdown table of seeded changes (seeded/*/meta.json + first line of the notes)."""
 import glob, json, os, re
 ROOT = os.path.dirname(os.path.dirname(os.path.abspath(__file__)))
+SUMM = json.load(open(os.path.join(ROOT, "seeded", "summaries.json"))) if os.path.exists(os.path.join(ROOT, "seeded", "summaries.json")) else {}
 print("| seeded change | what it does / what it needs to manifest | detected by (quick tier) | missed by |")
 print("|---|---|---|---|")
 for d in sorted(glob.glob(os.path.join(ROOT, "seeded", "*"))):
@@ -9,7 +10,7 @@ for d in sorted(glob.glob(os.path.join(ROOT, "seeded", "*"))):
     if not os.path.exists(mp):
         continue
     m = json.load(open(mp))
-    summ = m.get("summary", "")
+    summ = SUMM.get(os.path.basename(d)) or m.get("summary", "")
     det = m.get("detected_by") or {}
     hit = ", ".join(k for k, v in sorted(det.items()) if v.startswith("detected"))
     miss = ", ".join(k for k, v in sorted(det.items()) if v.startswith("missed"))
